@@ -407,25 +407,32 @@ def write_replay(prop: str, f: Failure) -> str:
     return path
 
 
-def write_evidence(prop: str, ev: dict) -> str:
+def write_evidence(prop: str, ev: dict, strict: bool = True) -> str:
     d = os.path.join(VERIF_DIR, "evidence")
     os.makedirs(d, exist_ok=True)
     path = os.path.join(d, f"{prop}.json")
-    try:
-        import jsonschema
-
-        schema_path = "/root/.vp/EVIDENCE.schema.json"
-        if not os.path.exists(schema_path):
-            schema_path = os.path.join(VERIF_DIR, "schemas", "EVIDENCE.schema.json")
-        if os.path.exists(schema_path):
-            with open(schema_path) as fh:
-                jsonschema.validate(ev, json.load(fh))
-    except ImportError:
-        pass
     tmp = path + ".tmp"
     with open(tmp, "w") as fh:
         json.dump(ev, fh, indent=1, default=_json_default)
     os.replace(tmp, path)
+    try:
+        import jsonschema
+    except ImportError:
+        return path
+    schema_path = "/root/.vp/EVIDENCE.schema.json"
+    if not os.path.exists(schema_path):
+        schema_path = os.path.join(VERIF_DIR, "schemas", "EVIDENCE.schema.json")
+    if os.path.exists(schema_path):
+        with open(schema_path) as fh:
+            schema = json.load(fh)
+        with open(path) as fh:
+            written = json.load(fh)
+        try:
+            jsonschema.validate(written, schema)
+        except jsonschema.ValidationError as e:
+            if strict:
+                raise HarnessError(f"evidence does not validate: {e.message}")
+            print(f"NOTE: evidence for {prop} does not validate ({e.message}); violations take precedence")
     return path
 
 
@@ -540,7 +547,7 @@ def run_property(mod, tier: str) -> int:
         "wall_s": round(wall, 2),
         "violations": len(violations),
     }
-    write_evidence(prop, ev)
+    write_evidence(prop, ev, strict=not violations)
     for line in out_lines:
         print(line)
     sys.stdout.flush()
